@@ -36,6 +36,8 @@ from vlib.val import line, Word
 from vlib.compare import diff, Err, exc_kind
 
 ID = 'C06'
+# theorems of this property stated for the object evaluator `Obj.evaluate` (bridge through C02)
+EXTRA_THEOREMS = [('Splipy.Properties.Bridge', 'Splipy/Properties/Bridge.lean', 'Bridge_C06_')]
 RTOL = 1e-9
 ATOL = 1e-11
 RULE = ('histories of 1-6 calls over reverse/swap/reparam on random objects (pardim 1-3, rational or not, open (clamped) / '
